@@ -468,6 +468,10 @@ def c19_cases(rnd, tier):
     yield [("add", "a.py", "Python", one(40)), ("add", "b.py", "Python", one(8000))]
     yield [("add", "a.py", "Python", one(10) * 3), ("aggregate",), ("add", "b.py", "Python", one(90))]
     yield [("add", "a.py", "Python", one(10) * 3), ("aggregate",), ("aggregate",), ("add", "d/b.py", "C", one(90)), ("aggregate",)]
+    # shares inside the rounding slack of a threshold (large code bases): an unmaintainable share below 0.001 % is shown as 0 % and
+    # then no refactoring is declared necessary; a hard-to-maintain share of 20.0004 % is shown as 20 %, which does not exceed 20
+    yield [("add", "big.py", "Python", one(15) * 520000 + one(61))]
+    yield [("add", "big.py", "Python", one(15) * 320008 + one(60) * 20001)]
 
 
 def main():
@@ -478,7 +482,10 @@ def main():
         if rp["obligation"].startswith("C19"):
             from codelimit.common.Measurement import Measurement as _M
             from codelimit.common.Location import Location as _L
-            steps = [tuple(st) if st[0] != "add" else ("add", st[1], st[2], [_M(n, _L(a, b), _L(c2, d), v) for n, a, b, c2, d, v in st[3]]) for st in c["steps"]]
+            if "generated_case" in c:
+                steps = list(c19_cases(random.Random(c["seed"]), c["tier"]))[c["generated_case"]]
+            else:
+                steps = [tuple(st) if st[0] != "add" else ("add", st[1], st[2], [_M(n, _L(a, b), _L(c2, d), v) for n, a, b, c2, d, v in st[3]]) for st in c["steps"]]
             fs = check_c19(steps)
             print(json.dumps({"reproduced": bool(fs), "failures": fs[:3]}))
             return
@@ -519,12 +526,14 @@ def main():
                     break
             samples = [{"paths": paths}]
         elif prop == "C19":
-            for steps in c19_cases(rnd, tier):
+            for idx, steps in enumerate(c19_cases(rnd, tier)):
                 evals += 1
-                ser_steps = [(st[0],) if st[0] != "add" else ("add", st[1], st[2], ser([(st[1], st[2], st[3])])[0][2]) for st in steps]
-                distinct.add(json.dumps(ser_steps, default=str))
+                big = any(st[0] == "add" and len(st[3]) > 500 for st in steps)
+                ser_steps = None if big else [(st[0],) if st[0] != "add" else ("add", st[1], st[2], ser([(st[1], st[2], st[3])])[0][2]) for st in steps]
+                distinct.add(json.dumps(ser_steps, default=str) if not big else f"case#{idx}")
                 for kind, what in check_c19(steps)[:2]:
-                    fails.append({"name": f"C19:{kind}", "what": what, "tags": [], "case": {"steps": ser_steps}})
+                    fails.append({"name": f"C19:{kind}", "what": what[:600], "tags": [],
+                                  "case": {"steps": ser_steps} if not big else {"generated_case": idx, "seed": seed, "tier": tier}})
                 if len(fails) > 30:
                     break
             samples = [{"note": "summaries of both formats rendered after every add_file / aggregate step of generated codebases"}]
